@@ -159,6 +159,7 @@ func vfH_dial_logic() {
 	vfClockMaxStep(int64(writeWait))
 	vfReqLog, vfRespQueue, vfTLSLog, vfTLSConns = nil, nil, nil, nil
 	vfTLSPeers, vfReqWriteFail, vfDefaultDialerUsed, vfDefaultDialConn = nil, 0, 0, nil
+	vfPlainSeen = false
 	vfBodyChunk = 0
 	kr := &vfRand{}
 	rand.Reader = kr
@@ -266,7 +267,7 @@ func vfH_dial_logic() {
 				}
 			}
 		case 5: // Dialer options
-			switch vfChoose(4) {
+			switch vfChoose(6) {
 			case 0:
 				in.d.Subprotocols = []string{"chat", "superchat"}
 			case 1:
@@ -276,6 +277,14 @@ func vfH_dial_logic() {
 			case 3:
 				in.ctx.hasDeadline = true
 				in.ctx.deadline = time.Now().Add(time.Duration(1+vfChoose(2)) * time.Hour)
+			case 4: // both, the handshake timeout is the earlier one
+				in.d.HandshakeTimeout = 5 * time.Second
+				in.ctx.hasDeadline = true
+				in.ctx.deadline = time.Now().Add(time.Hour)
+			case 5: // both, the context deadline is the earlier one
+				in.d.HandshakeTimeout = 3 * time.Hour
+				in.ctx.hasDeadline = true
+				in.ctx.deadline = time.Now().Add(time.Hour)
 			}
 		case 6: // benign caller headers
 			switch vfChoose(3) {
@@ -385,12 +394,27 @@ func vfH_dial_logic() {
 	if in.proto != "" {
 		rh["Sec-Websocket-Protocol"] = []string{in.proto}
 	}
-	wrongAccept := ""
+	// a wrong Accept value, described RELATIVE to the right one so that a witness
+	// carries over to the native replay (where SHA-1 is the real function): per
+	// character keep it, swap its case if it is a letter, or replace it
+	var wrongOp, wrongRepl []byte
 	if in.accept == 1 {
-		wrongAccept = vfString(28)
+		wrongOp, wrongRepl = vfBytes(28), vfBytes(28)
 		for i := 0; i < 28; i++ {
-			vfAssume(vfAnd(wrongAccept[i] > 0x20, wrongAccept[i] < 0x7f))
+			vfAssume(vfAnd(wrongOp[i] <= 2, vfAnd(wrongRepl[i] > 0x20, wrongRepl[i] < 0x7f)))
 		}
+	}
+	mkWrong := func(right string) string {
+		out := make([]byte, len(right))
+		for i := 0; i < len(right); i++ {
+			ch := right[i]
+			letter := vfOr(vfAnd(ch >= 'A', ch <= 'Z'), vfAnd(ch >= 'a', ch <= 'z'))
+			swapped := byte(vfIte(letter, int(ch^0x20), int(ch)))
+			out[i] = byte(vfIte(wrongOp[i] == 0, int(ch), vfIte(wrongOp[i] == 1, int(swapped), int(wrongRepl[i]))))
+			// a replacement is a character that differs from the right one by more than case
+			vfAssume(vfOr(wrongOp[i] != 2, vfAnd(wrongRepl[i] != ch, wrongRepl[i] != swapped)))
+		}
+		return string(out)
 	}
 	// the Accept value depends on the key the dial will generate: filled in by the hook below
 	body := vfBytes(in.body)
@@ -517,7 +541,9 @@ func vfH_dial_logic() {
 		case 0:
 			rh["Sec-Websocket-Accept"] = []string{specAccept(key)}
 		case 1:
-			vfAssume(!vfStrEq(wrongAccept, specAccept(key)))
+			right := specAccept(key)
+			wrongAccept := mkWrong(right)
+			vfAssume(!vfStrEq(wrongAccept, right))
 			rh["Sec-Websocket-Accept"] = []string{wrongAccept}
 		}
 		head := vfHeadBytes(in.status, order, rh)
@@ -659,6 +685,17 @@ func vfH_dial_logic() {
 		}
 	}
 	faulted := in.dialFail || vfReqWriteFail > 0 || tc.wfailed || !tlsOK
+	if nativeTLS && c == nil {
+		// native replay: the real TLS peer saw plaintext where a ClientHello was due
+		if tc.pipe != nil {
+			tc.pipe.Close() // the peer has finished with the connection once this returns an error to it
+		}
+		time.Sleep(20 * time.Millisecond)
+		vfTLSMu.Lock()
+		plain := vfPlainSeen
+		vfTLSMu.Unlock()
+		vfAssert(!plain, "c18-wss-request-only-inside-verified-tls")
+	}
 	if wsReq != nil && in.scheme == "wss" {
 		// C18: the handshake request left only inside a TLS session whose peer
 		// certificate was verified for the URL's host (or the configured name)
@@ -806,10 +843,15 @@ func vfH_dial_logic() {
 	}
 	// ---- C16: when a deadline applies, every transport operation of the handshake runs under one ----
 	if timed && !nativeTLS {
+		afterDial := time.Now()
 		for _, t := range tc.dlAtOp {
 			vfAssert(!t.IsZero(), "c16-every-handshake-transport-op-under-a-deadline")
 			if in.ctx.hasDeadline {
 				vfAssert(!t.After(in.ctx.deadline), "c16-deadline-no-later-than-context")
+			}
+			if in.d.HandshakeTimeout > 0 {
+				// the timeout started no later than the return of DialContext
+				vfAssert(!t.After(afterDial.Add(in.d.HandshakeTimeout)), "c16-deadline-no-later-than-handshake-timeout")
 			}
 		}
 	}
